@@ -65,8 +65,12 @@ func (r *Runner) fillExpandConfig(ctx context.Context) {
 				return err
 			}
 			r2 := r.subshell(false)
-			r2.stdout = w
+			// Background jobs started by the substitution write to w as well,
+			// concurrently, and may outlive it.
+			sw := &cmdSubstWriter{w: w}
+			r2.stdout = sw
 			r2.stmts(ctx, cs.Stmts)
+			sw.close()
 			r2.exit.exiting = false // subshells don't exit the parent shell
 			r.lastExpandExit = r2.exit
 			if r2.exit.fatalExit {
@@ -157,6 +161,29 @@ func (r *Runner) fillExpandConfig(ctx context.Context) {
 		},
 	}
 	r.updateExpandOpts()
+}
+
+// cmdSubstWriter serializes the writes to the buffer of a command substitution,
+// and drops those which arrive once the substitution has finished.
+type cmdSubstWriter struct {
+	mu     sync.Mutex
+	w      io.Writer
+	closed bool
+}
+
+func (c *cmdSubstWriter) Write(p []byte) (int, error) {
+	c.mu.Lock()
+	defer c.mu.Unlock()
+	if c.closed {
+		return len(p), nil
+	}
+	return c.w.Write(p)
+}
+
+func (c *cmdSubstWriter) close() {
+	c.mu.Lock()
+	c.closed = true
+	c.mu.Unlock()
 }
 
 // catShortcutArg checks if a statement is of the form "$(<file)". The redirect
